@@ -129,7 +129,7 @@ theorem unprotected_target (target : AccessBitmap) (h : target.isSet Priv.cannot
     reached, for every requester bitmap and every ban option. -/
 theorem protected_target_request (acc : AccessBitmap) (opt : BanOpt) :
     (run acc (.disconnectUser true opt)).effects = [] ∧ Out.toOthers ∉ (run acc (.disconnectUser true opt)).out := by
-  cases h : acc.isSet Priv.disconUser <;> simp [run, guard, deny, refuse, h]
+  cases h : acc.isSet Priv.disconUser <;> simp [run, Authz.guard, deny, refuse, h]
 
 /-! ### Obligations over the regenerated guard skeleton -/
 
